@@ -585,6 +585,9 @@ class Group(System):
         self._manual_connections = self._static_manual_connections.copy()
         self._group_inputs = self._static_group_inputs.copy()
 
+        # the connections can differ from those of the previous setup
+        self._sys_graph_cache = None
+
         if self.pathname == '':
             self._conn_graph = AllConnGraph()
 
